@@ -61,12 +61,27 @@ type Row struct {
 	Local  bool   `json:"local"`  // captured local variable (conflicts only across roots / multi roots)
 	Locks  []Lock `json:"locks"`  // effective lock set
 	Exempt string `json:"exempt"` // "", "init", "chanhb"
-	unit   *unit
-	lex    []Lock
-	obj    types.Object
-	pos    token.Pos
-	recv   bool // access follows a channel receive (for chanhb)
-	closed bool // access is followed by close (for chanhb)
+	Ctx      int  `json:"ctx"`      // unique number of (Func, Root)
+	SelfConc bool `json:"selfconc"` // two executions of this access may overlap (fields: always)
+	unit     *unit
+	lex      []Lock
+	obj      types.Object
+	pos      token.Pos // effective position (writes: end of the assigning statement)
+	recv     bool      // access follows a channel receive (for chanhb)
+	closed   bool      // access is followed by close (for chanhb)
+	ownWrite bool      // a write to the same location precedes in the same root (program order)
+	isCall   bool      // the access is a call through a func-typed field
+	roots    *[]*root
+}
+
+func origin(o types.Object) types.Object {
+	if f, ok := o.(*types.Func); ok {
+		return f.Origin()
+	}
+	if v, ok := o.(*types.Var); ok {
+		return v.Origin()
+	}
+	return o
 }
 
 type callSite struct {
@@ -84,6 +99,8 @@ type unit struct {
 	top      bool
 	fixed    bool // entry fixed to a given set (roots)
 	initCtx  bool
+	dead     bool // unexported, never referenced: unreachable code
+	skip     bool
 	decl     *ast.FuncDecl
 }
 
@@ -229,6 +246,9 @@ type walker struct {
 	initCtx bool
 	locals  map[types.Object]bool // locals known to hold an object under construction
 	recvd   map[string]bool       // channel names received from so far in this function
+	stmtEnd token.Pos             // end of the assignment statement being walked (0 otherwise)
+	deferCl bool                  // a `defer close(c)` is pending in this function
+	wrote   map[string]bool       // "root:var" written so far (program order within a root)
 }
 
 func (pc *pkgCtx) file(f *ast.File) {
@@ -249,7 +269,7 @@ func (pc *pkgCtx) file(f *ast.File) {
 		if obj != nil {
 			pc.units[obj] = u
 		}
-		w := &walker{pc: pc, fn: fd, fnName: u.key, unit: u, initCtx: u.initCtx, locals: map[types.Object]bool{}, recvd: map[string]bool{}}
+		w := &walker{pc: pc, fn: fd, fnName: u.key, unit: u, initCtx: u.initCtx, locals: map[types.Object]bool{}, recvd: map[string]bool{}, wrote: map[string]bool{}}
 		w.roots = []*root{{id: 0, start: fd.Pos(), end: fd.End()}}
 		w.block(fd.Body.List)
 	}
@@ -391,13 +411,45 @@ func (w *walker) stmt(s ast.Stmt) {
 		}
 		if id, ok := x.Call.Fun.(*ast.Ident); ok && id.Name == "close" && len(x.Call.Args) == 1 {
 			w.markClosed(chanName(x.Call.Args[0]), token.NoPos)
+			w.deferCl = true
 		}
 		w.call(x.Call, false, true)
 	case *ast.GoStmt:
 		w.call(x.Call, true, false)
 	case *ast.AssignStmt:
-		for _, r := range x.Rhs {
-			w.expr(r, false)
+		isClosureDef := false
+		if len(x.Lhs) == 1 && len(x.Rhs) == 1 {
+			_, a := x.Rhs[0].(*ast.FuncLit)
+			_, b := x.Lhs[0].(*ast.Ident)
+			isClosureDef = a && b
+		}
+		if !isClosureDef {
+			for _, r := range x.Rhs {
+				w.expr(r, false)
+			}
+		}
+		w.stmtEnd = x.End()
+		defer func() { w.stmtEnd = 0 }()
+		// name := func(){…}: a closure unit; its entry lock set comes from its call sites
+		if len(x.Lhs) == 1 && len(x.Rhs) == 1 {
+			if fl, ok := x.Rhs[0].(*ast.FuncLit); ok {
+				if id, ok := x.Lhs[0].(*ast.Ident); ok {
+					o := w.pc.info.Defs[id]
+					if o == nil {
+						o = w.pc.info.Uses[id]
+					}
+					if o != nil {
+						u := w.pc.units[o]
+						if u == nil {
+							u = &unit{key: w.fnName + "$" + id.Name, obj: o, initCtx: w.initCtx}
+							w.pc.units[o] = u
+						}
+						w.funcLitUnit(fl, nil, true, true, u)
+						w.lhs(x.Lhs[0])
+						return
+					}
+				}
+			}
 		}
 		for i, l := range x.Lhs {
 			if x.Tok == token.DEFINE {
@@ -600,6 +652,15 @@ func (w *walker) expr(e ast.Expr, write bool) {
 		w.access(x, write)
 		w.expr(x.X, false)
 	case *ast.Ident:
+		if o := w.pc.info.Uses[x]; o != nil {
+			if _, isVar := o.(*types.Var); isVar {
+				// a function value used as a value (timer callback, stored, passed on): it may be
+				// called later with nothing held
+				if _, isFn := o.Type().Underlying().(*types.Signature); isFn {
+					w.pc.sites = append(w.pc.sites, callSite{callee: o, held: nil, caller: w.unit, isGo: true})
+				}
+			}
+		}
 		w.ident(x, write)
 	case *ast.UnaryExpr:
 		if x.Op == token.AND {
@@ -707,7 +768,11 @@ func (w *walker) call(c *ast.CallExpr, isGo, isDefer bool) {
 			}
 			w.pc.sites = append(w.pc.sites, callSite{callee: sel.Obj(), held: h, caller: w.unit, isGo: isGo})
 		} else if sel != nil && sel.Kind() == types.FieldVal {
+			n := len(w.pc.rows)
 			w.access(f, false) // calling a func-typed field reads it
+			if len(w.pc.rows) > n {
+				w.pc.rows[len(w.pc.rows)-1].isCall = true
+			}
 		} else if o := w.pc.info.Uses[f.Sel]; o != nil {
 			if _, ok := o.(*types.Func); ok { // pkg.Func
 				h := w.cur()
@@ -732,8 +797,15 @@ func (w *walker) call(c *ast.CallExpr, isGo, isDefer bool) {
 	default:
 		w.expr(c.Fun, false)
 	}
+	conv := w.convention(c)
 	for _, a := range c.Args {
 		if fl, ok := a.(*ast.FuncLit); ok {
+			if conv != "" {
+				// callback that the library only ever invokes with `conv` held (verified below:
+				// every call through the storing field must hold it)
+				w.funcLit(fl, []Lock{{conv, false}}, true, true)
+				continue
+			}
 			switch kind {
 			case "hold":
 				w.funcLit(fl, withLock(w.cur(), Lock{class, false}), false, false)
@@ -759,6 +831,31 @@ func (w *walker) call(c *ast.CallExpr, isGo, isDefer bool) {
 	}
 }
 
+// conventions: (method, lock class held whenever the library invokes the callback passed to it,
+// field through which the callback is invoked). The extractor verifies the convention: every call
+// through that field must hold the class, otherwise an unprotected marker row is emitted.
+var conventions = []struct{ recvType, method, class, field string }{
+	{"RefCount", "AddRef", "refcount.RefCount.mtx", "refcount.Ref.cb"},
+}
+
+func (w *walker) convention(c *ast.CallExpr) string {
+	s, ok := c.Fun.(*ast.SelectorExpr)
+	if !ok {
+		return ""
+	}
+	sel := w.pc.info.Selections[s]
+	if sel == nil || sel.Kind() != types.MethodVal {
+		return ""
+	}
+	_, rn := namedOf(sel.Recv())
+	for _, cv := range conventions {
+		if cv.recvType == rn && cv.method == s.Sel.Name {
+			return cv.class
+		}
+	}
+	return ""
+}
+
 func inLoop(fn *ast.FuncDecl, p token.Pos) bool {
 	in := false
 	ast.Inspect(fn, func(n ast.Node) bool {
@@ -781,14 +878,25 @@ func inLoop(fn *ast.FuncDecl, p token.Pos) bool {
 // goroutine or later (so lexical locks of the enclosing code do not apply); multi: may run
 // concurrently with itself.
 func (w *walker) funcLit(fl *ast.FuncLit, held []Lock, newRoot, multi bool) {
-	savedHeld, savedRoot, savedRecv := w.held, w.curRoot, w.recvd
+	w.funcLitUnit(fl, held, newRoot, multi, nil)
+}
+
+// funcLitUnit: as funcLit; a new root gets its own unit (entry lock set ∅ unless `u` is a closure
+// unit whose entry set is the intersection over its call sites).
+func (w *walker) funcLitUnit(fl *ast.FuncLit, held []Lock, newRoot, multi bool, u *unit) {
+	savedHeld, savedRoot, savedRecv, savedUnit, savedDefer := w.held, w.curRoot, w.recvd, w.unit, w.deferCl
 	if newRoot {
 		w.curRoot = w.newRoot(fl, multi)
 		w.recvd = map[string]bool{}
+		w.deferCl = false
+		if u == nil {
+			u = &unit{key: fmt.Sprintf("%s#%d", w.fnName, w.curRoot), fixed: true, initCtx: w.initCtx}
+		}
+		w.unit = u
 	}
 	w.held = held
 	w.block(fl.Body.List)
-	w.held, w.curRoot, w.recvd = savedHeld, savedRoot, savedRecv
+	w.held, w.curRoot, w.recvd, w.unit, w.deferCl = savedHeld, savedRoot, savedRecv, savedUnit, savedDefer
 }
 
 func (w *walker) baseIsFresh(e ast.Expr) bool {
@@ -824,15 +932,27 @@ func (w *walker) access(x *ast.SelectorExpr, write bool) {
 	_, owner := namedOf(sel.Recv())
 	pos := w.pc.fset.Position(x.Sel.Pos())
 	r := &Row{Var: short(fv.Pkg().Path()) + "." + owner + "." + x.Sel.Name, Write: write, File: pos.Filename, Line: pos.Line,
-		Func: w.fnName, Root: w.curRoot, Multi: true, lex: w.cur(), unit: w.unit, obj: fv, pos: x.Sel.Pos()}
+		Func: w.fnName, Root: w.curRoot, Multi: true, lex: w.cur(), unit: w.unit, obj: fv, pos: x.Sel.Pos(), roots: &w.roots}
 	if w.initCtx || w.baseIsFresh(x.X) {
 		r.Exempt = "init"
 	}
-	r.recv = w.recvd[recvKeyFor(x.Sel.Name)] || w.anyRecv()
+	w.common(r, write)
 	w.pc.rows = append(w.pc.rows, r)
 }
 
-func recvKeyFor(string) string { return "" }
+// common fills the program-order facts used by the exemptions.
+func (w *walker) common(r *Row, write bool) {
+	if write && w.stmtEnd != 0 {
+		r.pos = w.stmtEnd
+	}
+	r.recv = w.anyRecv()
+	r.closed = w.deferCl
+	key := fmt.Sprintf("%d:%s", w.curRoot, r.Var)
+	r.ownWrite = w.wrote[key]
+	if write {
+		w.wrote[key] = true
+	}
+}
 
 func (w *walker) anyRecv() bool {
 	for k, v := range w.recvd {
@@ -859,12 +979,11 @@ func (w *walker) ident(id *ast.Ident, write bool) {
 		return
 	}
 	pos := w.pc.fset.Position(id.Pos())
-	r := &Row{Var: w.fnName + "$" + v.Name(), Write: write, File: pos.Filename, Line: pos.Line, Func: w.fnName,
-		Root: w.curRoot, Local: true, lex: w.cur(), unit: w.unit, obj: v, pos: id.Pos()}
+	r := &Row{Var: fmt.Sprintf("%s$%s@%d", w.fnName, v.Name(), w.pc.fset.Position(v.Pos()).Line), Write: write, File: pos.Filename, Line: pos.Line, Func: w.fnName,
+		Root: w.curRoot, Local: true, lex: w.cur(), unit: w.unit, obj: v, pos: id.Pos(), roots: &w.roots}
 	r.Multi = w.roots[w.curRoot].multi
-	r.recv = w.anyRecv()
+	w.common(r, write)
 	w.pc.rows = append(w.pc.rows, r)
-	_ = w.declRoot
 }
 
 // ---------------------------------------------------------------- solving
@@ -903,11 +1022,15 @@ func (pc *pkgCtx) solve() {
 	// entry lock sets of unexported helpers = intersection over their call sites (fixed point)
 	sitesOf := map[types.Object][]callSite{}
 	for _, s := range pc.sites {
-		sitesOf[s.callee] = append(sitesOf[s.callee], s)
+		if s.caller != nil && s.caller.initCtx && len(s.held) == 0 {
+			continue // calls made without a lock while the object is still under construction
+		}
+		sitesOf[origin(s.callee)] = append(sitesOf[origin(s.callee)], s)
 	}
 	for o, u := range pc.units {
 		if u.exported || len(sitesOf[o]) == 0 {
 			u.entry = nil
+			u.dead = !u.exported && len(sitesOf[o]) == 0 && u.decl != nil && !refdAnywhere(pc, o)
 		} else {
 			u.top = true
 		}
@@ -948,12 +1071,38 @@ func (pc *pkgCtx) solve() {
 	}
 	for _, r := range pc.rows {
 		e := []Lock(nil)
-		if r.unit != nil && !r.unit.top && r.Root == 0 {
+		if r.unit != nil && !r.unit.top && !r.unit.fixed {
+			e = r.unit.entry
+		}
+		if r.unit != nil && r.unit.fixed {
 			e = r.unit.entry
 		}
 		r.Locks = union(r.lex, e)
 		sort.Slice(r.Locks, func(i, j int) bool { return r.Locks[i].Class < r.Locks[j].Class })
 	}
+	var live []*Row
+	for _, r := range pc.rows {
+		if r.unit != nil && r.unit.dead {
+			fmt.Printf("note: %s is unreachable (unexported, never referenced); its accesses are not tabulated\n", r.unit.key)
+			r.unit.dead, r.unit.decl = false, nil
+			r.unit.skip = true
+		}
+		if r.unit == nil || !r.unit.skip {
+			live = append(live, r)
+		}
+	}
+	pc.rows = live
+}
+
+// refdAnywhere: is the function object referenced at all in the package (call, method value,
+// interface satisfaction is ignored: methods that implement an interface are exported here)?
+func refdAnywhere(pc *pkgCtx, o types.Object) bool {
+	for _, u := range pc.info.Uses {
+		if origin(u) == o {
+			return true
+		}
+	}
+	return false
 }
 
 func callerEntry(u *unit) []Lock {
@@ -982,32 +1131,89 @@ func sameLocks(a, b []Lock) bool {
 // ---------------------------------------------------------------- output
 
 func finish(all []*Row, fset *token.FileSet, repo, outLean, outJSON string) {
-	// locals: keep only variables accessed from at least two different roots, or from a root other
-	// than root 0 that may run concurrently with itself
 	byVar := map[string][]*Row{}
 	for _, r := range all {
 		byVar[r.Var] = append(byVar[r.Var], r)
 	}
+	ctxNum := map[string]int{}
 	var rows []*Row
 	for _, rs := range byVar {
+		for _, r := range rs {
+			k := fmt.Sprintf("%s#%d", r.Func, r.Root)
+			if _, ok := ctxNum[k]; !ok {
+				ctxNum[k] = len(ctxNum)
+			}
+			r.Ctx = ctxNum[k]
+			r.SelfConc = true
+		}
 		if !rs[0].Local {
 			rows = append(rows, rs...)
 			continue
 		}
-		roots := map[int]bool{}
-		multi := false
-		for _, r := range rs {
-			roots[r.Root] = true
-			if r.Multi && r.Root != declRootOf(rs) {
-				multi = true
+		// captured local variable: find the root that declares it
+		roots := *rs[0].roots
+		decl := 0
+		for _, rt := range roots {
+			if rt.id != 0 && rt.start <= rs[0].obj.Pos() && rs[0].obj.Pos() < rt.end {
+				if decl == 0 || (roots[decl].end-roots[decl].start) > (rt.end-rt.start) {
+					decl = rt.id
+				}
 			}
 		}
-		if len(roots) >= 2 || multi {
-			rows = append(rows, rs...)
+		used := map[int]bool{}
+		for _, r := range rs {
+			used[r.Root] = true
+			// executions of a root overlap only if the root may run several times and the
+			// variable is not private to one execution
+			r.SelfConc = r.Multi && r.Root != decl
+		}
+		shared := len(used) >= 2
+		for _, r := range rs {
+			if r.SelfConc {
+				shared = true
+			}
+		}
+		if !shared {
+			continue
+		}
+		// pre-publication: an access in the declaring root that completes before any other root
+		// using the variable is created happens-before everything that root does (go statement /
+		// closure creation), provided the declaring root is not itself re-entered on this variable
+		for _, r := range rs {
+			if r.Root != decl || r.SelfConc {
+				continue
+			}
+			pre := true
+			for _, rt := range roots {
+				if rt.id != r.Root && used[rt.id] && !(r.pos <= rt.start) {
+					pre = false
+				}
+			}
+			if pre && r.Exempt == "" {
+				r.Exempt = "init"
+			}
+		}
+		rows = append(rows, rs...)
+	}
+	// verify the callback conventions
+	for _, cv := range conventions {
+		for _, r := range all {
+			if r.Var == cv.field && r.isCall {
+				has := false
+				for _, l := range r.Locks {
+					if l.Class == cv.class && !l.Shared {
+						has = true
+					}
+				}
+				if !has {
+					rows = append(rows, &Row{Var: "convention-violated:" + cv.field, Write: true, File: r.File, Line: r.Line, Func: r.Func,
+						SelfConc: true, Ctx: r.Ctx, obj: r.obj, pos: r.pos, roots: r.roots})
+				}
+			}
 		}
 	}
-	// chan-hb exemption: every non-init write is followed by a close in its function and every
-	// read is preceded by a channel receive in its function
+	// chan-hb exemption: every (non-init) write is followed by a close in its function and every
+	// read is preceded by a channel receive in its function or follows its own goroutine's write
 	byVar = map[string][]*Row{}
 	for _, r := range rows {
 		byVar[r.Var] = append(byVar[r.Var], r)
@@ -1023,7 +1229,7 @@ func finish(all []*Row, fset *token.FileSet, repo, outLean, outJSON string) {
 				if !r.closed {
 					ok = false
 				}
-			} else if !r.recv {
+			} else if !r.recv && !r.ownWrite {
 				ok = false
 			}
 		}
@@ -1061,12 +1267,11 @@ func finish(all []*Row, fset *token.FileSet, repo, outLean, outJSON string) {
 	fmt.Printf("rows=%d vars=%d\n", len(rows), len(byVar))
 }
 
-func declRootOf(rs []*Row) int { return 0 }
 
 func leanTable(rows []*Row) string {
 	var b strings.Builder
-	b.WriteString("import UtilModel.Race.Lockset\n/-! GENERATED by harness/extract from /repo on every run of `./check C13`. Do not edit. -/\nnamespace UtilModel.Race.Gen\nopen UtilModel.Race\n\n")
-	// intern variables and lock classes as numbers (keeps `decide` fast); names kept in comments
+	b.WriteString("import UtilModel.Race.Lockset\n/-! GENERATED by harness/extract from the Go sources on every run of `./check C13`. Do not edit. -/\nnamespace UtilModel.Race.Gen\nopen UtilModel.Race\n\n")
+	// intern variables and lock classes as numbers; names are kept in comments
 	vars, locks := map[string]int{}, map[string]int{}
 	var vnames, lnames []string
 	for _, r := range rows {
@@ -1081,31 +1286,44 @@ func leanTable(rows []*Row) string {
 			}
 		}
 	}
-	b.WriteString("/- variables:\n")
-	for i, n := range vnames {
-		fmt.Fprintf(&b, "  %d = %s\n", i, n)
-	}
-	b.WriteString("lock classes:\n")
+	b.WriteString("/- lock classes:\n")
 	for i, n := range lnames {
 		fmt.Fprintf(&b, "  %d = %s\n", i, n)
 	}
-	b.WriteString("-/\n\ndef lockTable : List Row := [\n")
-	for i, r := range rows {
-		var ls []string
-		for _, l := range r.Locks {
-			ls = append(ls, fmt.Sprintf("(%d, %v)", locks[l.Class], l.Shared))
-		}
-		ex := ".none"
-		if r.Exempt != "" {
-			ex = "." + r.Exempt
-		}
-		sep := ","
-		if i == len(rows)-1 {
-			sep = ""
-		}
-		fmt.Fprintf(&b, "  { id := %d, var := %d, write := %v, root := %d, multi := %v, locks := [%s], exempt := %s }%s -- %s:%d %s\n",
-			r.ID, vars[r.Var], r.Write, r.Root, r.Multi, strings.Join(ls, ", "), ex, sep, r.File, r.Line, r.Var)
+	b.WriteString("-/\n\n/-- accesses grouped by location: group k holds the rows of location k -/\ndef lockTable : List (List Row) := [\n")
+	groups := make([][]*Row, len(vnames))
+	for _, r := range rows {
+		groups[vars[r.Var]] = append(groups[vars[r.Var]], r)
 	}
-	b.WriteString("]\n\nend UtilModel.Race.Gen\n")
+	for gi, g := range groups {
+		fmt.Fprintf(&b, "  -- %d = %s\n  [", gi, vnames[gi])
+		for i, r := range g {
+			var ls []string
+			for _, l := range r.Locks {
+				ls = append(ls, fmt.Sprintf("(%d, %v)", locks[l.Class], l.Shared))
+			}
+			ex := ".none"
+			if r.Exempt != "" {
+				ex = "." + r.Exempt
+			}
+			sep := ","
+			if i == len(g)-1 {
+				sep = ""
+			}
+			fmt.Fprintf(&b, "\n    { id := %d, var := %d, write := %v, ctx := %d, selfconc := %v, locks := [%s], exempt := %s }%s -- %s:%d",
+				r.ID, vars[r.Var], r.Write, r.Ctx, r.SelfConc, strings.Join(ls, ", "), ex, sep, r.File, r.Line)
+		}
+		if gi == len(groups)-1 {
+			b.WriteString("\n  ]\n")
+		} else {
+			b.WriteString("\n  ],\n")
+		}
+	}
+	b.WriteString("]\n\n")
+	b.WriteString("/-- the regenerated table satisfies the lockset discipline (re-checked by the kernel on every run) -/\n")
+	b.WriteString("theorem table_ok : checkGrouped lockTable = true := by decide\n\n")
+	b.WriteString("/-- hence no two conflicting accesses of the tabulated code are ever in progress together -/\n")
+	b.WriteString("theorem no_conflicting_accesses (es : List Ev) (s : St)\n    (hr : (machine lockTable.flatten).run (machine lockTable.flatten).init es = some s)\n    (i j : Nat) (ti tj : Thread) (a b : Row) (hij : i ≠ j) (h1 : s[i]? = some ti) (h2 : s[j]? = some tj)\n    (ha : ti.acc = some a) (hb : tj.acc = some b) : mayConflict a b = false :=\n  lockset_sound _ (checkTable_of_grouped lockTable table_ok) es s hr i j ti tj a b hij h1 h2 ha hb\n\n")
+	b.WriteString("end UtilModel.Race.Gen\n")
 	return b.String()
 }
